@@ -103,7 +103,19 @@ func (w *World) verifyFunc(fn *ssa.Function, fc *FuncContract, mode string, extr
 	pkg := pkgOf(fn)
 	// global axioms from spec files
 	axEnv := &Env{c: c, st: st, vars: map[string]Val{}, pkg: pkg, guard: "true"}
-	for _, ax := range w.axioms {
+	for ai, ax := range w.axioms {
+		// an axiom of package P is only relevant to code that can mention P's types
+		relevant := pkg != nil && pkg.Name() == w.axiomPkg[ai]
+		if pkg != nil {
+			for _, imp := range pkg.Imports() {
+				if imp.Name() == w.axiomPkg[ai] {
+					relevant = true
+				}
+			}
+		}
+		if !relevant {
+			continue
+		}
 		func() {
 			defer func() {
 				if r := recover(); r != nil {
